@@ -2,6 +2,8 @@
 
 package client
 
+import "strings"
+
 // C01: serializer-first round trip. Components are symbolic; the reference
 // serializer below builds the wire text; the real ParseLine must give back
 // exactly the components.
@@ -295,6 +297,9 @@ func VerifC01Plain() {
 		want[1][0] == 1 && want[1][len(want[1])-1] == 1 {
 		return
 	}
+	vObserve("cmd", l.Cmd)
+	vObserve("args", strings.Join(l.Args, "\x00"))
+	vObserve("text-target", l.Text()+"\x00"+l.Target())
 	vAssert(l.Cmd == cmd, "cmd")
 	vAssert(len(l.Args) == len(want), "args-count")
 	if len(l.Args) == len(want) {
